@@ -314,6 +314,9 @@ class Net:
             self.next_port += 1
         sock = _FakeSock(port)
         server = base_events.Server(loop, [sock], factory, None, 100, None, None)
+        import contextvars
+
+        server._sim_ctx = contextvars.copy_context()  # the listening process's context
         self.listeners[port] = server
         if start_serving:
             server._start_serving()
@@ -333,7 +336,11 @@ class Net:
         sproto = server._protocol_factory()
         st = SimTransport(self.env, sproto, s2c, c2s, (addr, cport), ("127.0.0.1", port), server=server, tap=tap_s2c)
         ct = SimTransport(self.env, client_protocol, c2s, s2c, ("127.0.0.1", port), (addr, cport), tap=tap_c2s)
-        sproto.connection_made(st)
+        sctx = getattr(server, "_sim_ctx", None)
+        if sctx is not None:
+            sctx.copy().run(sproto.connection_made, st)
+        else:
+            sproto.connection_made(st)
         client_protocol.connection_made(ct)
         return ct, st
 
